@@ -4,7 +4,7 @@ From Verif Require Import Base Transform Setvar.
 Open Scope N_scope.
 
 (* ---- rule sets as read back from the compiled WAF (hook VerifC09Dump), still as text ---- *)
-Inductive rawop := ROp (kind : N) (arg : bytes).
+Inductive rawop := ROp (kind : N) (arg : bytes) | ROpRx (tbl : list (bytes * list (N * bytes))).
 Inductive rawaction :=
   | RNd (name : bytes) | RSetvar (raw : bytes) | RDisr (name : bytes) (deny : bool)
   | RFlow (name : bytes) | ROther (name : bytes).
@@ -14,7 +14,9 @@ Inductive rawlink :=
 Inductive rawrule := RR (phase : N) (head : rawlink) (chain : list rawlink).
 
 Definition compile_op (o : rawop) : option cop :=
-  let '(ROp k a) := o in
+  match o with
+  | ROpRx tbl => Some (OpRxTable tbl)
+  | ROp k a =>
   if k =? 0 then Some OpUncond
   else if k =? 9 then Some (OpRxPrefix a)
   else match macro_compile a with
@@ -24,7 +26,8 @@ Definition compile_op (o : rawop) : option cop :=
          else if k =? 3 then Some (OpStreq m) else if k =? 4 then Some (OpEq m)
          else if k =? 5 then Some (OpGt m) else if k =? 6 then Some (OpGe m)
          else if k =? 7 then Some (OpLt m) else if k =? 8 then Some (OpLe m) else None
-       end.
+       end
+  end.
 
 Fixpoint compile_actions (l : list rawaction) : option (list action) :=
   match l with
